@@ -19,10 +19,12 @@ cancellation-free middle term): tolerance, bracket, oddness, monotonicity on sor
 scalar / ndarray / Series agreement, the strains.  EVERY clause is evaluated for every case: a failure whose class is an open
 known finding is noted (`Prop.known`) and the element is left out of the later clauses, the examination goes on.
 
-Open known findings are tied to their mechanism: `legacy_solver` reproduces the solver algorithm of the tree the findings
-were recorded on (scipy's vectorised / scalar secant resp. Newton iteration with the recorded start values and iteration
-limits, run on the law's own defining functions); a miss belongs to the known class only if the value the code returned IS
-the value of that reproduction (1e-12 relative).  Any other miss gets a class of its own and is reported."""
+No C06 finding is open today (all recorded solver classes are fixed: c6e709f, ba2ed2a, de286fc, b50f603, 4ade39c, e1dd979,
+bb99960, 805617f).  The RECORDED classes stay tied to their mechanism: `legacy_solver` reproduces the solver algorithm of the
+tree the findings were recorded on (scipy's vectorised / scalar secant resp. Newton iteration with the recorded start values
+and iteration limits, run on the law's own defining functions); a miss belongs to a recorded class only if the value the code
+returned IS the value of that reproduction (1e-12 relative), and it is tolerated only while that class has status "open" in
+KNOWN_FINDINGS.jsonl.  Any other miss gets a class of its own and is reported."""
 import json
 import math
 import warnings
@@ -177,7 +179,7 @@ LEGACY_TREE = "20f8491"
 
 
 def legacy_solver(case, direction, br, x, t):
-    """What the solver ALGORITHM of the tree the open findings were recorded on (pylife 20f8491) returns for the input `x`
+    """What the solver ALGORITHM of the tree the (meanwhile fixed) findings were recorded on (pylife 20f8491) returns for the input `x`
     (scalar or list), run on the law's own defining functions and derivatives:
       * ExtendedNeuber.load / load_secondary_branch: scipy Newton, x0 = stress, maxiter = 20 (array input: scipy's vectorised
         iteration, which returns unconverged elements with a warning only);
@@ -185,8 +187,8 @@ def legacy_solver(case, direction, br, x, t):
         arrays with a scalar retry of the elements reported as not converged; zero entries are set to zero and left out;
       * SeegerBeste.load / load_secondary_branch: scalar scipy secant, x0 = s / (1 - (1 - 1/K_p)/1000), maxiter = 50 / 20,
         element by element.
-    Returns a list of floats, 'RuntimeError', or None (no recorded defect for this function).  This is the mechanism the open
-    known findings of C06 are tied to: a miss is 'known' only if the code returned exactly this value."""
+    Returns a list of floats, 'RuntimeError', or None (no recorded defect for this function).  This is the mechanism the
+    recorded finding classes of C06 are tied to: a miss is 'known' only if the code returned exactly this value."""
     from scipy import optimize
     law = make_law({k: v for k, v in case.items() if k != "history"})
     Kp = case["Kp"]
@@ -334,9 +336,10 @@ class C06(Prop):
             "Seeger-Beste: existence, uniqueness, monotonicity in stress and load and the inverse are proved for the mathematical equation on the "
             "OPEN bracket L/K_p < sigma < L (Proofs/C06SeegerBeste.lean; lim 2/u^2 ln(1/cos u) = 1 at 0+ and +inf at (pi/2)-).  Not claimed: the end "
             "points themselves (there the code evaluates np.divide fall-back values that differ from the limits) and roots outside the bracket.  "
-            "The iteration of the REPAIRED solver (bisection inside the bracket, tools/fixes/C06-seegerbeste-bracketed-solver.diff) is proved to "
-            "converge to that root (seegerBeste_bisection_converges / _backward_); what scipy's secant / Newton iterations of the unrepaired tree "
-            "return is measured per run against an independent bisection - four solver defects are recorded as known findings",
+            "The iteration of the REPAIRED solver (bisection inside the bracket, /repo commit b50f603) is proved to "
+            "converge to that root (seegerBeste_bisection_converges / _backward_); the Seeger-Beste solver of the checked tree IS that bisection, "
+            "and what it returns is measured per run against an independent bisection.  The four solver defects recorded on the tree before "
+            "the repair (scipy secant / Newton iterations) are fixed: c6e709f, ba2ed2a (extended Neuber), de286fc, b50f603 (Seeger-Beste)",
     }
     RULE = ("case = law (extended Neuber / Seeger-Beste) x FKM-estimated material (3 groups, R_m in [200, 2000]) x K_p in "
             "{1, 1.001, 1.5, 3.5, 10} (Seeger-Beste > 1) or random x tolerance rtol = tol in [1e-10, 1e-4] x spaced grid of loads up to "
@@ -364,13 +367,13 @@ class C06(Prop):
     ASSUMPTIONS = [
         "C06: theorems are over the reals about the defining functions as coded (incl. the np.divide fall-backs) and about bisection "
         "inside the bracket (the halving loop of the repaired Seeger-Beste solver, without its stopping rule and its final clipped linear "
-        "interpolation); what scipy.optimize.newton returns (extended Neuber; Seeger-Beste on the unrepaired tree) is not provable from "
-        "here - measured per run",
-        "C06: Proofs/C06Newton.lean (derivative handed to Newton's method by the repaired ExtendedNeuber.load, monotone iteration from "
-        "K_p sigma) is written from the source of the repaired tree (`roCompliance`, `dLoadImplicit`, `newtonLoad`) and is NOT tied to the "
+        "interpolation, /repo commit b50f603); what scipy.optimize.newton returns (extended Neuber; Seeger-Beste only on the tree before "
+        "b50f603) is not provable from here - measured per run",
+        "C06: Proofs/C06Newton.lean (derivative handed to Newton's method by the repaired ExtendedNeuber.load, /repo commit c6e709f, monotone "
+        "iteration from K_p sigma, /repo commit ba2ed2a) is written from the source of the repaired tree (`roCompliance`, `dLoadImplicit`, `newtonLoad`) and is NOT tied to the "
         "code by the correspondence: the derivative is not an observable of the property; the values `load` returns are",
-        "C06: the Seeger-Beste middle term is modelled in the cancellation-free form of the repaired code, ln(1/cos u) = log1p(2 sin^2(u/2) / "
-        "cos u) (same fall-backs; Proofs/Lemmas/Notch.lean middleTerm_eq proves it equal to the form ln(1/cos u) of the unrepaired tree over "
+        "C06: the Seeger-Beste middle term is modelled in the cancellation-free form of the repaired code (/repo commit de286fc), ln(1/cos u) = log1p(2 sin^2(u/2) / "
+        "cos u) (same fall-backs; Proofs/Lemmas/Notch.lean middleTerm_eq proves it equal to the form ln(1/cos u) of the tree before de286fc over "
         "the reals); at Float the two forms differ by the cancellation error of cos u -> 1, which the correspondence admits (f1 x 1e-15)",
         "C06: admissible parameters E, K' > 0, 0 < n' < 1, K_p >= 1 (Seeger-Beste K_p > 1) - the code checks none; loads are "
         "non-zero floats (ints and lists are rejected by the code with AttributeError / TypeError and are not generated)",
@@ -849,7 +852,7 @@ class C06(Prop):
                         continue
                     if not a[i] < a[i + 1] and roots[i + 1] - roots[i] > 4 * tolv[i]:
                         F.append((f"{what}: not increasing: f({Ls[i]!r}) = {a[i]!r} >= f({Ls[i + 1]!r}) = {a[i + 1]!r}", f"{name}-monotone"))
-            # ---------------- scalar input: accepted (F-11), the root within the tolerance, hence = the array value within 2 tol
+            # ---------------- scalar input: accepted (finding seegerbeste-scalar-input, fixed by 805617f), the root within the tolerance, hence = the array value within 2 tol
             for i, (p, q) in r["scalar"].items():
                 for L, v, j in ((Ls[i], p, i), (-Ls[i], q, n + i)):
                     x, tv = math.copysign(roots[i], L), tolv[i]
